@@ -210,6 +210,9 @@ func leafValues(lf fLeaf) (field string, rval, cval any) {
 }
 
 // the unknown operator has many spellings: no operator at all, near misses of the known ones
+// ... and over a list of filters: words a reader may expect to mean something
+var groupSpells = []string{"nope", "xor", "not", "", "AND", "Or", "nor", "&&"}
+
 var unknownOps = []string{"nope", "", "==", "eq", "=<", " =", "AND", "~", "!", "<>", "IN", "Has"}
 
 func realOp(lf fLeaf) string {
@@ -274,7 +277,12 @@ func runFilterCase(c fCase) fEvent {
 				kids = append(kids, f)
 				out.C = append(out.C, o)
 			}
-			return &jsonapi.Filter{Op: n.O, Val: kids}, out
+			op := n.O
+			if op != "and" && op != "or" {
+				// the model's unknown operator over a list of filters, in one of its spellings
+				op = groupSpells[(len(kids)+len(c.Leaves)+int(c.Leaves[0].Kind))%len(groupSpells)]
+			}
+			return &jsonapi.Filter{Op: op, Val: kids}, out
 		}
 		f, tree := build(c.Shape)
 		ev.Tree = tree
